@@ -112,6 +112,13 @@ class Repo:
         for nm_, fs_ in _simple.items():
             if len(fs_) == 1 and fs_[0].cls is None and _inl.never_returns_none(fs_[0].node):
                 _inl.NONNULL_REPO_FUNCTIONS.add(nm_)
+        _cls = {}
+        for cq_, c_ in self.classes.items():
+            _cls.setdefault(cq_.rsplit(".", 1)[-1], []).append(c_)
+        for nm_, cs_ in _cls.items():
+            # K(..) with K a class of the repository (one class of that name, no function of that name, no __new__): an instance, never None
+            if len(cs_) == 1 and nm_ not in _simple and not any(isinstance(x, ast.FunctionDef) and x.name == "__new__" for x in getattr(cs_[0], "node", cs_[0]).body):
+                _inl.NONNULL_REPO_FUNCTIONS.add(nm_)
         _inl.NONNULL_ATTRIBUTES.clear()
         _inl.NONNULL_ATTRIBUTES.update(_inl.nonnull_attributes(self))
         self._inline_new_helpers()
